@@ -73,3 +73,12 @@ silent("C42", "adjoint-front-end-single-line-bind",
               "        n_consts = len(jaxpr.consts)\n        adjoint_prim.bind(*jaxpr.consts, *abstract_shapes, *flat_args, jaxpr=jaxpr.jaxpr, lazy=lazy, n_consts=n_consts)")])
 silent("C42", "allocate-handler-renamed-function",
        [(TAPE, "def _allocate_primitive(self, *, num_wires, state, restored):", "def _handle_allocate(self, *, restored, state, num_wires):")])
+
+# --- R-C42-slices
+_WL = "pennylane/control_flow/while_loop.py"
+fire("C42", "while-loop-binds-condition-constants-before-body-constants",
+     (_WL, "            *jaxpr_body_fn.consts,\n            *jaxpr_cond_fn.consts,\n            *all_args,", "            *jaxpr_cond_fn.consts,\n            *jaxpr_body_fn.consts,\n            *all_args,"),
+     "R-C42-slices", "_call_capture_enabled")
+silent("C42", "while-loop-slices-defined-in-another-order-of-statements",
+       [(_WL, "        body_consts = slice(0, len(jaxpr_body_fn.consts))\n        cond_consts = slice(body_consts.stop, body_consts.stop + len(jaxpr_cond_fn.consts))\n        args_slice = slice(cond_consts.stop, None)\n",
+              "        n_body = len(jaxpr_body_fn.consts)\n        body_consts = slice(0, len(jaxpr_body_fn.consts))\n        cond_consts = slice(body_consts.stop, body_consts.stop + len(jaxpr_cond_fn.consts))\n        args_slice = slice(cond_consts.stop, None)\n")])
